@@ -101,6 +101,9 @@ pub fn guard<T>(f: impl FnOnce() -> T) -> Result<T, String> {
 
 /// Silence the default panic message (panics are recorded as events instead).
 pub fn quiet_panics() {
+    if std::env::var_os("VERIF_LOUD").is_some() {
+        return;
+    }
     std::panic::set_hook(Box::new(|_| {}));
 }
 
